@@ -10,3 +10,7 @@ import LyModel.Props.C15
 #print axioms LyModel.Props.C15.new_path_exists
 #print axioms LyModel.Props.C15.new_path_chain_fails
 #print axioms LyModel.Props.C15.new_path_chain_partial
+#print axioms LyModel.Props.C15.ChainOK.compiled
+#print axioms LyModel.Props.C15.static_buffer_terminated_iff_source
+#print axioms LyModel.Props.C15.au_chainOK
+#print axioms LyModel.Props.C15.ex_chainOK
